@@ -80,6 +80,13 @@ def programs(tier: str):
             continue
         for ending, cancels in bodies:
             yield {"block": {"kind": "ascope", "supply": [], "disp": [dict(beh2[i]) for i in combo], "pause": bool(cancels), "ending": ending}, "cancels": cancels, "batch": 2}
+    # a disposable whose exit returns True ("handled"): the body's outcome still reaches the caller
+    for ending, cancels in bodies:
+        for other in (None, ("ok", "ok"), ("ok", "raise")):
+            disp = [{"enter": "ok", "exit": "ok", "yields": "none", "handles": True}]
+            if other:
+                disp.append({"enter": other[0], "exit": other[1], "yields": "none"})
+            yield {"block": {"kind": "ascope", "supply": [], "disp": disp, "pause": bool(cancels), "ending": ending}, "cancels": cancels}
     # the cancellation of the body injected between two loop iterations
     beh_f = [b for b in _behaviours(False) if b["yields"] == "none"]
     for k in (1, 2):
